@@ -930,6 +930,11 @@ func TestC14(t *testing.T) {
 		i := i
 		run(func() { c14dialTimeout(rep, seed, i) })
 	}
+	for i := 0; i < vh.Pick(2, 16); i++ {
+		i := i
+		run(func() { c14resetWhileBusy(rep, seed, i) })
+		run(func() { c14udpClientClosedPort(rep, seed, i) })
+	}
 	for i := 0; i < vh.Pick(2, 12); i++ {
 		i := i
 		run(func() { c14activeStalled(rep, seed, i, i%2 == 1) })
@@ -939,6 +944,120 @@ func TestC14(t *testing.T) {
 	}
 	rep.Sample(map[string]interface{}{"tcp-client": "accept, 2 frames, reset; listener down 320 ms; accept, half a frame, close; ...", "idle": "udp-server: frame every 30 ms for 1.8 s, then silence"})
 	var _ = io.EOF
+}
+
+// c14resetWhileBusy: a TCP peer resets (or closes) its connection while the application is busy and takes no events - the
+// channel's reader holds a received frame - and the application writes to the link in that window (so that it is the
+// WRITER that meets the dead connection first). The close event that follows carries the transport's cause (reset / EOF),
+// not an error that the library's own teardown produced ("use of closed network connection").
+func c14resetWhileBusy(rep *vh.Report, seed uint64, idx int) {
+	if aborted() {
+		return
+	}
+	port := freeTCPPort()
+	node := &gomavlib.Node{Endpoints: []gomavlib.EndpointConf{gomavlib.EndpointTCPServer{Address: fmt.Sprintf("127.0.0.1:%d", port)}}, Dialect: testDialect, OutVersion: gomavlib.V2, OutSystemID: 37,
+		HeartbeatDisable: true, IdleTimeout: 5 * time.Second, WriteTimeout: time.Second}
+	if err := node.Initialize(); err != nil {
+		rep.Inconclusive("C14 reset-while-busy: " + err.Error())
+		return
+	}
+	conn, err := net.Dial("tcp4", fmt.Sprintf("127.0.0.1:%d", port))
+	if err != nil {
+		safeClose(rep, node)
+		return
+	}
+	// the application: takes the open event and the first frame, then is busy for a while
+	gate := make(chan struct{})
+	var closeErr error
+	var nClose int32
+	done := make(chan struct{})
+	go func() {
+		defer close(done)
+		frames := 0
+		for e := range node.Events() {
+			switch ev := e.(type) {
+			case *gomavlib.EventFrame:
+				frames++
+				if frames == 1 {
+					<-gate
+				}
+			case *gomavlib.EventChannelClose:
+				closeErr = ev.Error
+				atomic.AddInt32(&nClose, 1)
+			}
+		}
+	}()
+	_, _ = conn.Write(uidFrame(1, 0, 2, false, nil, 0))
+	_, _ = conn.Write(uidFrame(2, 1, 2, false, nil, 0)) // the reader now holds this one, waiting for the application
+	time.Sleep(15 * time.Millisecond)
+	reset := idx%2 == 0
+	if tc, ok := conn.(*net.TCPConn); ok && reset {
+		_ = tc.SetLinger(0) // RST
+	}
+	conn.Close()
+	time.Sleep(10 * time.Millisecond)
+	for i := 0; i < 6; i++ {
+		_ = node.WriteMessageAll(&MessageVfUid{Uid: uint64(100 + i)})
+		time.Sleep(3 * time.Millisecond)
+	}
+	close(gate)
+	waitFor(func() bool { return atomic.LoadInt32(&nClose) > 0 }, func() int64 { return int64(atomic.LoadInt32(&nClose)) }, time.Second)
+	if !safeClose(rep, node) {
+		return
+	}
+	<-done
+	rep.Eval(1)
+	rep.Count("reset_while_busy_runs", 1)
+	rep.Distinct("reset-busy", idx)
+	switch {
+	case atomic.LoadInt32(&nClose) == 0:
+		rep.Violation("ep=tcp-server what=no-close", "a TCP peer went away while the application was busy and the node was writing to it: no close event followed", map[string]interface{}{"reset": reset})
+	case closeErr == nil:
+		rep.Violation("ep=tcp-server what=no-cause", "the close event of a connection that the peer reset / closed carries no error", map[string]interface{}{"reset": reset})
+	case errors.Is(closeErr, net.ErrClosed):
+		rep.Violation("ep=tcp-server what=no-cause", fmt.Sprintf("the close event carries %q - the trace of the library closing the connection itself - instead of the cause (the peer's reset / end of stream)", closeErr.Error()),
+			map[string]interface{}{"reset": reset})
+	}
+}
+
+// c14udpClientClosedPort: a UDP client endpoint whose remote port is closed (the kernel answers every datagram with "port
+// unreachable") while the node keeps writing heartbeats more often than the idle timeout: the channel ends with a cause
+// ("connection refused", or the idle timeout at the latest) and the endpoint opens a fresh one, again and again; it does
+// not stay open for ever receiving nothing.
+func c14udpClientClosedPort(rep *vh.Report, seed uint64, idx int) {
+	if aborted() {
+		return
+	}
+	T := 300 * time.Millisecond
+	port := freeUDPPort() // nobody listens there
+	node := &gomavlib.Node{Endpoints: []gomavlib.EndpointConf{gomavlib.EndpointUDPClient{Address: fmt.Sprintf("127.0.0.1:%d", port)}}, Dialect: testDialect, OutVersion: gomavlib.V2, OutSystemID: 38,
+		HeartbeatPeriod: 40 * time.Millisecond, IdleTimeout: T}
+	if err := node.Initialize(); err != nil {
+		rep.Inconclusive("C14 udp-client closed port: " + err.Error())
+		return
+	}
+	life := watchLife(node)
+	start := time.Now()
+	waitFor(func() bool { return life.count(false) >= 2 }, func() int64 { return int64(time.Since(start) / (3 * T)) }, 4*T)
+	closes := life.count(false)
+	evts := life.snapshot()
+	if !safeClose(rep, node) {
+		return
+	}
+	<-life.done
+	rep.Eval(1)
+	rep.Count("udp_client_closed_port_runs", 1)
+	rep.Distinct("udp-closed-port", idx)
+	if closes < 2 {
+		rep.Violation("ep=udp-client what=idle-not-closed", fmt.Sprintf("a UDP client channel whose remote port is closed (nothing is ever received; the node writes every 40 ms, idle timeout %v) was closed %d time(s) in %v: it neither fails nor expires", T, closes, time.Since(start).Round(10*time.Millisecond)), nil)
+		return
+	}
+	for _, e := range evts {
+		if !e.Open && e.Err == nil {
+			rep.Violation("ep=udp-client what=no-cause", "the close event of a UDP client channel whose remote port is closed carries no error", nil)
+			break
+		}
+	}
 }
 
 // c14dialTimeout: connection attempts that get NO answer (they time out after ReadTimeout instead of being refused)
